@@ -187,6 +187,9 @@ fn guarded<T>(mon: &Monitor, entry: &str, mutk: Mut, input: &[u8], f: impl FnOnc
             None
         }
         Ok(v) => {
+            if mutk != Mut::None && mutk != Mut::Random && mon.want_sample() {
+                mon.sample(json!({"entry": entry, "mutation": format!("{mutk:?}"), "len": input.len(), "bytes_requested": st.requested, "input_prefix_hex": hex::encode(&input[..input.len().min(64)])}));
+            }
             if st.requested > alloc_bound(input.len()) {
                 mon.violation(&format!("alloc/{entry}/requested-beyond-linear-bound"), json!({"entry": entry, "mutation": format!("{mutk:?}"), "len": input.len(), "requested": st.requested, "largest_single": st.largest, "input_prefix_hex": hex::encode(&input[..input.len().min(96)])}));
             }
